@@ -286,6 +286,15 @@ func (p *Program) lockObligations() []sob {
 			}
 			sort.Strings(writers)
 			sort.Strings(unguarded)
+			// the variable itself may never change and still hand out shared mutable state: objects with fields
+			// that are written after construction (a String's iteration position), or external stateful values
+			// (a hasher, a buffer).  Every evaluator of the process would share them without any lock.
+			if _, guarded := guards[gname]; !guarded {
+				if why := p.holdsMutable(g.Type().(*types.Pointer).Elem(), map[types.Type]bool{}); why != "" {
+					out = append(out, sob{Name: "locks.shared." + gname, OK: false, Src: gname + " holds state that every evaluator of the process shares",
+						Detail: why + "; no lock covers it and the evaluator's own lock does not reach other evaluators"})
+				}
+			}
 			if mu, ok := guards[gname]; ok {
 				out = append(out, sob{Name: "locks.global." + gname, OK: len(unguarded) == 0, Src: gname + " is guarded by " + mu,
 					Detail: "accesses outside the lock in: " + strings.Join(unguarded, ", ")})
@@ -305,6 +314,115 @@ func (p *Program) lockObligations() []sob {
 		out = append(out, sob{Name: "evalfilter.(*Eval).Prepare#locks.critical", OK: ok, Src: "Prepare locks e.mutex first and unlocks it by defer", Detail: detail})
 	}
 	return out
+}
+
+// mutableStructs: module struct types with a field that is written after construction (a store through a
+// pointer that is not the fresh allocation of a composite literal or new)
+func (p *Program) mutableStructs() map[string]string {
+	if p.mutStructs != nil {
+		return p.mutStructs
+	}
+	p.mutStructs = map[string]string{}
+	for _, f := range p.libraryFuncs() {
+		for _, b := range f.Blocks {
+			for _, in := range b.Instrs {
+				st, ok := in.(*ssa.Store)
+				if !ok {
+					continue
+				}
+				fa, ok := st.Addr.(*ssa.FieldAddr)
+				if !ok {
+					continue
+				}
+				if _, fresh := fa.X.(*ssa.Alloc); fresh {
+					continue
+				}
+				pt, ok := fa.X.Type().Underlying().(*types.Pointer)
+				if !ok {
+					continue
+				}
+				nt, ok := types.Unalias(pt.Elem()).(*types.Named)
+				if !ok || nt.Obj().Pkg() == nil || !isModulePkg(nt.Obj().Pkg()) {
+					continue
+				}
+				key := nt.Obj().Pkg().Name() + "." + nt.Obj().Name()
+				if _, seen := p.mutStructs[key]; !seen {
+					p.mutStructs[key] = fieldNameOf(fa) + " (written by " + p.keyOf[f] + ")"
+				}
+			}
+		}
+	}
+	return p.mutStructs
+}
+
+// holdsMutable: does a value of type t (transitively through pointers, containers and interfaces) reach
+// state that can change after it was built?  Returns the reason, or "".
+func (p *Program) holdsMutable(t types.Type, seen map[types.Type]bool) string {
+	if seen[t] {
+		return ""
+	}
+	seen[t] = true
+	immutableExternal := map[string]bool{"*regexp.Regexp": true, "*time.Location": true, "time.Time": true, "time.Duration": true, "error": true}
+	ts := types.TypeString(t, nil)
+	if immutableExternal[ts] {
+		return ""
+	}
+	switch tt := t.Underlying().(type) {
+	case *types.Basic, *types.Signature:
+		return ""
+	case *types.Pointer:
+		if nt, ok := types.Unalias(tt.Elem()).(*types.Named); ok && nt.Obj().Pkg() != nil {
+			if isModulePkg(nt.Obj().Pkg()) {
+				key := nt.Obj().Pkg().Name() + "." + nt.Obj().Name()
+				if f, mut := p.mutableStructs()[key]; mut {
+					return "it reaches *" + key + ", whose field " + f + " changes after construction"
+				}
+				return p.holdsMutable(tt.Elem(), seen)
+			}
+			return "it reaches the external stateful type " + ts
+		}
+		return p.holdsMutable(tt.Elem(), seen)
+	case *types.Struct:
+		if nt, ok := types.Unalias(t).(*types.Named); ok && nt.Obj().Pkg() != nil && !isModulePkg(nt.Obj().Pkg()) {
+			if strings.HasPrefix(ts, "sync.") {
+				return ""
+			}
+			return "it holds the external stateful type " + ts
+		}
+		for i := 0; i < tt.NumFields(); i++ {
+			if why := p.holdsMutable(tt.Field(i).Type(), seen); why != "" {
+				return why
+			}
+		}
+		return ""
+	case *types.Map:
+		if why := p.holdsMutable(tt.Key(), seen); why != "" {
+			return why
+		}
+		return p.holdsMutable(tt.Elem(), seen)
+	case *types.Slice:
+		return p.holdsMutable(tt.Elem(), seen)
+	case *types.Array:
+		return p.holdsMutable(tt.Elem(), seen)
+	case *types.Interface:
+		if nt, ok := types.Unalias(t).(*types.Named); ok && nt.Obj().Pkg() != nil && isModulePkg(nt.Obj().Pkg()) {
+			for _, im := range p.allNamed {
+				for _, cand := range []types.Type{types.NewPointer(im), im} {
+					if _, isIface := im.Underlying().(*types.Interface); !isIface && types.Implements(cand, tt) {
+						if why := p.holdsMutable(cand, seen); why != "" {
+							return why
+						}
+					}
+				}
+			}
+			return ""
+		}
+		if tt.NumMethods() == 0 {
+			return "it is an empty interface (anything may be stored in it)"
+		}
+		return "it is the external stateful interface " + ts
+	}
+	return ""
 }
 
 func (p *Program) refersTo(f *ssa.Function, g *ssa.Global) bool {
@@ -985,8 +1103,103 @@ func (p *Program) ginvSupport() []sob {
 	return out
 }
 
+// stateObligations (C07, C19): what survives a run.  Every field of the machine, of the environment and
+// of the evaluator that is written while a script runs (by vm.Run or anything it calls) must be named
+// in the `statefields` clause of vm.Run, where each is accounted for by a clause of Run's contract
+// (restored on every way out, re-initialised at the start of a run, or state the language defines, such
+// as variables).  A new field written during a run is hidden state until a contract says what becomes of it.
+func (p *Program) stateObligations() []sob {
+	run := p.funcs["vm.(*VM).Run"]
+	c := p.contracts.byKey["vm.(*VM).Run"]
+	if run == nil || c == nil || c.Props["statefields"] == "" {
+		return []sob{{Name: "vm.(*VM).Run#state.declared", OK: false, Src: "vm.Run declares the fields a run may write (statefields clause)"}}
+	}
+	allowed := map[string]bool{}
+	for _, f := range strings.Fields(c.Props["statefields"]) {
+		allowed[f] = true
+	}
+	watched := map[string]bool{"VM": true, "Environment": true, "Eval": true}
+	// functions reachable from Run
+	seen := map[*ssa.Function]bool{}
+	var walk func(f *ssa.Function)
+	walk = func(f *ssa.Function) {
+		if f == nil || seen[f] || f.Pkg == nil || !isModulePkg(f.Pkg.Pkg) {
+			return
+		}
+		seen[f] = true
+		for _, b := range f.Blocks {
+			for _, in := range b.Instrs {
+				if ci, ok := in.(ssa.CallInstruction); ok {
+					for _, g := range p.callees(ci.Common()) {
+						walk(g)
+					}
+				}
+				if mc, ok := in.(*ssa.MakeClosure); ok {
+					walk(mc.Fn.(*ssa.Function))
+				}
+			}
+		}
+	}
+	walk(run)
+	written := map[string][]string{}
+	for f := range seen {
+		for _, b := range f.Blocks {
+			for _, in := range b.Instrs {
+				st, ok := in.(*ssa.Store)
+				if !ok {
+					continue
+				}
+				fa, ok := st.Addr.(*ssa.FieldAddr)
+				if !ok {
+					continue
+				}
+				pt, ok := fa.X.Type().Underlying().(*types.Pointer)
+				if !ok {
+					continue
+				}
+				nt, ok := types.Unalias(pt.Elem()).(*types.Named)
+				if !ok || !watched[nt.Obj().Name()] || !isModulePkg(nt.Obj().Pkg()) {
+					continue
+				}
+				if _, fresh := fa.X.(*ssa.Alloc); fresh {
+					continue // initialising a new object
+				}
+				name := nt.Obj().Name() + "." + fieldNameOf(fa)
+				written[name] = append(written[name], p.keyOf[f])
+			}
+		}
+	}
+	var out []sob
+	var names []string
+	for n := range written {
+		names = append(names, n)
+	}
+	sort.Strings(names)
+	for _, n := range names {
+		ws := written[n]
+		sort.Strings(ws)
+		out = append(out, sob{Name: "vm.(*VM).Run#state." + n, OK: allowed[n], Src: n + " is written while a script runs and Run's contract accounts for it (statefields)",
+			Detail: "written by " + trunc(strings.Join(ws, ", "), 200) + "; fields accounted for: " + c.Props["statefields"]})
+	}
+	return out
+}
+
+func fieldNameOf(fa *ssa.FieldAddr) string {
+	pt, ok := fa.X.Type().Underlying().(*types.Pointer)
+	if !ok {
+		return ""
+	}
+	st, ok := pt.Elem().Underlying().(*types.Struct)
+	if !ok || fa.Field >= st.NumFields() {
+		return ""
+	}
+	return st.Field(fa.Field).Name()
+}
+
 func structuralFor(p *Program, id string) []sob {
 	switch id {
+	case "C07":
+		return p.stateObligations()
 	case "C01", "C05", "C14", "C13", "C12":
 		return p.ginvSupport()
 	case "C10":
@@ -1007,7 +1220,7 @@ func structuralFor(p *Program, id string) []sob {
 	case "C09":
 		return p.pollObligations()
 	case "C19":
-		return p.determinismObligations()
+		return append(p.determinismObligations(), p.stateObligations()...)
 	}
 	return nil
 }
